@@ -272,6 +272,9 @@ def run(ck: Check, prog: Program) -> None:
                       'types; werkzeug/flask Request.content_type is the raw header; Request.is_json is true only for application/json and +json')
     ck.not_decided += ['equality of replies on concrete bodies', 'integrations other than aiohttp / flask / werkzeug']
     records = {}
+    # helpers extracted from the request handlers (reading the body, building the reply) are looked at as part of them
+    from ..inline import inlined_program
+    prog = inlined_program(prog, [handler_of(prog, prog.cls(cq)).qualname for cq, _ in INTEGRATIONS.values()])
     for fw, (cq, wsgi) in INTEGRATIONS.items():
         ci = prog.cls(cq)
         h = handler_of(prog, ci)
